@@ -1,5 +1,6 @@
 import Cuckoo.Model.Conc
 import Cuckoo.Props.C02
+import Cuckoo.Proofs.ConcAux
 /-!
 # C01 (second half) — every interleaving of critical sections is linearizable
 
@@ -24,7 +25,7 @@ table — the protocol theorems of `Props/C01.lean` / `C03.lean` + the two-phase
 mechanised; helper threads are not modelled; a locked_table section is a run of sequential steps (C02) by its owner.
 -/
 namespace Cuckoo.Props.C01Conc
-open Cuckoo Cuckoo.Model Cuckoo.Model.Conc Cuckoo.Spec
+open Cuckoo Cuckoo.Model Cuckoo.Model.Conc Cuckoo.Spec Cuckoo.Model.ConcA
 variable {κ ν : Type} [DecidableEq κ]
 
 /-- the calls of a client program (find/contains/update/erase are `lookup`; insert/insert_or_assign/upsert/uprase_fn are `uprase`) -/
@@ -62,37 +63,111 @@ def SecOf (c : Cfg κ) (call : Call κ ν) (f : Section κ ν) : Prop :=
 /-! ### every concrete section is legitimate, for all (stale) parameters -/
 
 theorem lockSec_sec (c : Cfg κ) (call : Call κ ν) (bs : List Nat) : SecOf c call (lockSec c bs) := by
-  sorry
+  intro t m h hr
+  obtain ⟨a1, a2, a3, a4⟩ := lockSec_core (ν := ν) c bs t h
+  refine ⟨a1, Nat.le_of_eq a3.rc.symm, fun _ => a3.hp, ?_⟩
+  rw [a4]
+  exact hr.of_same a2
 
 theorem hopSec_sec (c : Cfg κ) (call : Call κ ν) (hpS rcS : Nat) (fr to : PathRec) :
     SecOf c call (hopSec c hpS rcS fr to) := by
-  sorry
+  intro t m h hr
+  obtain ⟨a1, a2, a3, a4⟩ := hopSec_core c hpS rcS fr to t h
+  refine ⟨a1, Nat.le_of_eq a3.rc.symm, fun _ => a3.hp, ?_⟩
+  rw [a4]
+  exact hr.of_same a2
 
 theorem lookupSec_sec (c : Cfg κ) (ce : Bool) (k : κ) (fn : ν → FnOut ν) :
     SecOf c (.lookup ce k fn) (lookupSec c ce k fn) := by
-  sorry
+  intro t m h hr
+  obtain ⟨a1, a2⟩ := C02.fnOp_refines c ce t m k fn h hr
+  have a3 := fnOp_keeps c ce t k fn h
+  refine ⟨a1, Nat.le_of_eq a3.rc.symm, fun _ => a3.hp, ?_⟩
+  show ∃ m', specOf m (.lookup ce k fn) (.bool (t.fnOp c ce k fn).2.res (t.fnOp c ce k fn).2.calls) m' ∧
+    Rel c (t.fnOp c ce k fn).1 m'
+  cases hlook : AMap.lookup m k with
+  | none =>
+    rw [hlook] at a2
+    obtain ⟨r1, r2, r3⟩ := a2
+    refine ⟨m, ?_, r3⟩
+    simp only [specOf, hlook, r1, r2, and_self]
+  | some w =>
+    rw [hlook] at a2
+    obtain ⟨r1, r2⟩ := a2
+    cases hfn : fn w with
+    | ret v' er =>
+      rw [hfn] at r2
+      refine ⟨_, ?_, r2.2⟩
+      simp only [specOf, hlook, hfn, r1, r2.1, and_self]
+    | throw v' =>
+      rw [hfn] at r2
+      refine ⟨_, ?_, r2.2⟩
+      simp only [specOf, hlook, hfn, r1, r2.1, and_self]
 
 theorem insertTrySec_sec (c : Cfg κ) (k : κ) (v : ν) (ca me : Bool) (fn : Ctx → ν → FnOut ν) :
     SecOf c (.uprase k v ca me fn) (insertTrySec c k v ca me fn) := by
-  sorry
+  intro t m h hr
+  obtain ⟨a1, a3, a4⟩ := insertTrySec_core c k v ca me fn t m h hr
+  refine ⟨a1, Nat.le_of_eq a3.rc.symm, fun _ => a3.hp, ?_⟩
+  unfold InsRes at a4
+  split
+  · rename_i he; rw [he] at a4; exact a4
+  · rename_i r he
+    rw [he] at a4
+    exact ⟨_, .inr ⟨a4.1, rfl⟩, a4.2⟩
 
 theorem insertLastSec_sec (c : Cfg κ) (hpS rcS : Nat) (k : κ) (v : ν) (ca me : Bool) (fn : Ctx → ν → FnOut ν)
     (fr : PathRec) (to : Option PathRec) :
     SecOf c (.uprase k v ca me fn) (insertLastSec c hpS rcS k v ca me fn fr to) := by
-  sorry
+  intro t m h hr
+  obtain ⟨a1, a3, a4⟩ := insertLastSec_core c hpS rcS k v ca me fn fr to t m h hr
+  refine ⟨a1, Nat.le_of_eq a3.rc.symm, fun _ => a3.hp, ?_⟩
+  unfold InsRes at a4
+  split
+  · rename_i he; rw [he] at a4; exact a4
+  · rename_i r he
+    rw [he] at a4
+    exact ⟨_, .inr ⟨a4.1, rfl⟩, a4.2⟩
 
 theorem doubleSec_sec (c : Cfg κ) (k : κ) (v : ν) (ca me : Bool) (fn : Ctx → ν → FnOut ν) (fuel curHp : Nat) :
     SecOf c (.uprase k v ca me fn) (doubleSec c fuel curHp) := by
-  sorry
+  intro t m h hr
+  obtain ⟨a1, a2, _, a4⟩ := fastDouble_spec c false true fuel t curHp h (fun e => by cases e)
+  obtain ⟨b1, b2⟩ := fastDouble_rc c false true fuel t curHp h
+  have hr1 := hr.of_same a2
+  unfold doubleSec
+  rcases hd : fastDouble c false true fuel t curHp with ⟨t', _ | e⟩
+  · rw [hd] at a1 b1 b2 hr1
+    exact ⟨a1, b1, b2, hr1⟩
+  · rw [hd] at a1 b1 b2 hr1 a4
+    exact ⟨a1, b1, b2, m, .inl ⟨e, a4, rfl, rfl⟩, hr1⟩
 
 theorem rehashSec_sec (c : Cfg κ) (n : Nat) : SecOf c (Call.rehash n : Call κ ν) (rehashSec c n) := by
-  sorry
+  intro t m h hr
+  obtain ⟨a1, a2, _, _⟩ := C02.rehash_refines c false t m n h hr (fun e => by cases e)
+  have hb : t.rc ≤ (t.rehash c false n).1.rc ∧ ((t.rehash c false n).1.rc = t.rc → (t.rehash c false n).1.hp = t.hp) := by
+    unfold Table.rehash
+    split
+    · exact ⟨Nat.le_refl _, fun _ => rfl⟩
+    · exact expandSimple_rc c false false _ t n h
+  exact ⟨a1, hb.1, hb.2, m, ⟨rfl, rfl⟩, a2⟩
 
 theorem reserveSec_sec (c : Cfg κ) (n : Nat) : SecOf c (Call.reserve n : Call κ ν) (reserveSec c n) := by
-  sorry
+  intro t m h hr
+  obtain ⟨a1, a2, _, _⟩ := C02.reserve_refines c false t m n h hr (fun e => by cases e)
+  have hb : t.rc ≤ (t.reserve c false n).1.rc ∧ ((t.reserve c false n).1.rc = t.rc → (t.reserve c false n).1.hp = t.hp) := by
+    unfold Table.reserve
+    simp only
+    split
+    · exact ⟨Nat.le_refl _, fun _ => rfl⟩
+    · exact expandSimple_rc c false false _ t _ h
+  exact ⟨a1, hb.1, hb.2, m, ⟨rfl, rfl⟩, a2⟩
 
 theorem clearSec_sec (c : Cfg κ) : SecOf c (Call.clear : Call κ ν) (clearSec c) := by
-  sorry
+  intro t m h hr
+  obtain ⟨a1, a2, _⟩ := C02.clear_refines c t m h hr
+  obtain ⟨b1, b2⟩ := clear_rc_hp c t
+  exact ⟨a1, Nat.le_of_eq b1.symm, fun _ => b2, [], ⟨rfl, rfl⟩, a2⟩
 
 /-! ### schedules -/
 
@@ -113,7 +188,21 @@ def linRun (m : AMap κ ν) : List (Call κ ν) → List (Option (Resp ν)) → 
 theorem conc_linearizable (c : Cfg κ) (evs : List (Ev c ν)) (t : Table κ ν) (m : AMap κ ν) (h : Inv c t) (hr : Rel c t m) :
     ∃ m', linRun m (evs.map (·.call)) (exec t (evs.map (·.f))).2 m' ∧
       Inv c (exec t (evs.map (·.f))).1 ∧ Rel c (exec t (evs.map (·.f))).1 m' := by
-  sorry
+  induction evs generalizing t m with
+  | nil => exact ⟨m, rfl, h, hr⟩
+  | cons ev rest ih =>
+    obtain ⟨i1, _, _, i4⟩ := ev.ok t m h hr
+    simp only [List.map_cons, exec]
+    cases hres : (ev.f t).2 with
+    | none =>
+      rw [hres] at i4
+      obtain ⟨m', a, b, d⟩ := ih (ev.f t).1 m i1 i4
+      exact ⟨m', a, b, d⟩
+    | some r =>
+      rw [hres] at i4
+      obtain ⟨m1, s1, r1⟩ := i4
+      obtain ⟨m', a, b, d⟩ := ih (ev.f t).1 m1 i1 r1
+      exact ⟨m', ⟨m1, s1, a⟩, b, d⟩
 
 /-- in particular no key is ever stored twice and every stored pair is a pair of the linearized map, at every point
 of every schedule (every prefix of a schedule is a schedule) -/
@@ -121,18 +210,44 @@ theorem never_stored_twice (c : Cfg κ) (evs : List (Ev c ν)) (t : Table κ ν)
     (p p' : Loc) (sl sl' : Slot κ ν)
     (h1 : (exec t (evs.map (·.f))).1.at c p = some sl) (h2 : (exec t (evs.map (·.f))).1.at c p' = some sl')
     (hk : sl.key = sl'.key) : p = p' := by
-  sorry
+  obtain ⟨_, _, hi, _⟩ := conc_linearizable c evs t m h hr
+  exact hi.uniq p p' sl sl' h1 h2 hk
+
+/-- along any schedule the resize counter never decreases, and the hashpower changes only together with it -/
+private theorem rc_mono (c : Cfg κ) (evs : List (Ev c ν)) (t : Table κ ν) (m : AMap κ ν) (h : Inv c t) (hr : Rel c t m) :
+    t.rc ≤ (exec t (evs.map (·.f))).1.rc ∧
+    ((exec t (evs.map (·.f))).1.rc = t.rc → (exec t (evs.map (·.f))).1.hp = t.hp) := by
+  induction evs generalizing t m with
+  | nil => exact ⟨Nat.le_refl _, fun _ => rfl⟩
+  | cons ev rest ih =>
+    obtain ⟨i1, i2, i3, i4⟩ := ev.ok t m h hr
+    simp only [List.map_cons, exec]
+    have key : ∀ m1, Rel c (ev.f t).1 m1 →
+        t.rc ≤ (exec (ev.f t).1 (rest.map (·.f))).1.rc ∧
+        ((exec (ev.f t).1 (rest.map (·.f))).1.rc = t.rc → (exec (ev.f t).1 (rest.map (·.f))).1.hp = t.hp) := by
+      intro m1 r1
+      obtain ⟨a, b⟩ := ih (ev.f t).1 m1 i1 r1
+      refine ⟨Nat.le_trans i2 a, fun e => ?_⟩
+      have e1 : (ev.f t).1.rc = t.rc := by omega
+      rw [b (by omega), i3 e1]
+    cases hres : (ev.f t).2 with
+    | none => rw [hres] at i4; exact key m i4
+    | some r =>
+      rw [hres] at i4
+      obtain ⟨m1, _, r1⟩ := i4
+      exact key m1 r1
 
 /-- the resize counter guards the hashpower along every schedule: if the counter after the schedule equals the counter
 before it, so does the hashpower (hence re-validating the counter alone suffices) -/
 theorem rc_check_implies_hp_check (c : Cfg κ) (evs : List (Ev c ν)) (t : Table κ ν) (m : AMap κ ν) (h : Inv c t) (hr : Rel c t m)
     (hrc : (exec t (evs.map (·.f))).1.rc = t.rc) : (exec t (evs.map (·.f))).1.hp = t.hp := by
-  sorry
+  exact (rc_mono c evs t m h hr).2 hrc
 
 /-- the sequential insertion is one particular schedule: its first section is `insertTrySec` -/
 theorem insertTry_is_first_section (c : Cfg κ) (t : Table κ ν) (k : κ) (v : ν) (ca me : Bool) (fn : Ctx → ν → FnOut ν)
     (p : InsPos) (hp : tryInsert c (t.lockTwo c (c.i1 t.hp k) (c.i2 t.hp k)).cur (c.i1 t.hp k) (c.i2 t.hp k) k = .pos p) :
     (insertTrySec c k v ca me fn t).1 = (finishInsert c (t.lockTwo c (c.i1 t.hp k) (c.i2 t.hp k)) k v ca me fn p).1 := by
-  sorry
+  unfold insertTrySec
+  simp only [hp]
 
 end Cuckoo.Props.C01Conc
